@@ -361,6 +361,19 @@ def rule_pandas_all(ctx):
                 ctx.violation("C05.f", "cursor", "FakeSnowflakeCursor.fetch_pandas_all", "fetch_pandas_all does not convert the whole table", loc,
                               f"fetch_pandas_all returns `{tagof(v)[:80]}`, not the whole result table: after some rows were fetched row-wise the "
                               f"DataFrame no longer agrees with rowcount and the rows of the result")
+            # the hand-over to pandas must accept every value the row-wise fetches hand out: conversion options that make pyarrow
+            # *refuse* or *alter* values (facts about pyarrow.Table.to_pandas, part of the trusted base) break the agreement
+            kw = v.origin[4] if ok and len(v.origin) > 4 and isinstance(v.origin[4], dict) else {}
+            risky = {"coerce_temporal_nanoseconds": (True, "timestamps outside 1677-09-21 … 2262-04-11 make the checked cast raise ArrowInvalid for the whole result"),
+                     "safe": (False, "out-of-range values are truncated silently instead of being reported")}
+            for k_, (bad_v, why_) in risky.items():
+                got_ = kw.get(k_)
+                hit = isinstance(got_, Const) and got_.v is bad_v
+                ctx.ob("C05.f", f"fetch_pandas_all converts without `{k_}={bad_v}`", not hit, loc)
+                if hit:
+                    ctx.violation("C05.f", "cursor", "FakeSnowflakeCursor.fetch_pandas_all", f"to_pandas({k_}={bad_v})", loc,
+                                  f"fetch_pandas_all converts the result with `{k_}={bad_v}`: {why_}, while fetchone / fetchmany / fetchall and rowcount "
+                                  f"still deliver those rows — the DataFrame no longer agrees with them")
     ctx.floor("C05.f paths", n, 2)
     # an open result set — with or without rows — is never answered with "no open result set"
     nn = 0
